@@ -187,6 +187,26 @@ func jAddress(n *jnode) (string, error) {
 
 // canonicalBatch is the independent recogniser of exactly what the property lists.
 func canonicalBatch(content []byte) error {
+	_, err := canonicalBatchTxs(content)
+	return err
+}
+
+// canonicalBatchTxs also returns what the content says, one line per transaction, read off the independent parse.
+func canonicalBatchTxs(content []byte) (said []string, reterr error) {
+	defer func() {
+		if reterr != nil {
+			said = nil
+		}
+	}()
+	return canonicalBatchWalk(content, &said)
+}
+
+func canonicalBatchWalk(content []byte, said *[]string) ([]string, error) {
+	err := canonicalBatchInner(content, said)
+	return *said, err
+}
+
+func canonicalBatchInner(content []byte, said *[]string) error {
 	root, err := jparse(content)
 	if err != nil {
 		return err
@@ -226,9 +246,11 @@ func canonicalBatch(content []byte) error {
 		if amt.Cmp(maxInt64) > 0 {
 			return fmt.Errorf("tx %d input amount exceeds int64", i)
 		}
-		if _, err := jTicker(in["type"]); err != nil {
+		ityp, err := jTicker(in["type"])
+		if err != nil {
 			return fmt.Errorf("tx %d input: %v", i, err)
 		}
+		line := fmt.Sprintf("%s %s %s", addr, amt, ityp)
 		// "exactly one of transfers or conversion": a key that is present counts, whatever its value
 		// (an empty or null transfers list next to a conversion is still both)
 		hasT := tx["transfers"] != nil
@@ -237,9 +259,11 @@ func canonicalBatch(content []byte) error {
 			return fmt.Errorf("tx %d: exactly one of transfers / conversion required", i)
 		}
 		if hasC {
-			if _, err := jTicker(tx["conversion"]); err != nil {
+			to, err := jTicker(tx["conversion"])
+			if err != nil {
 				return fmt.Errorf("tx %d conversion: %v", i, err)
 			}
+			line += " => " + to
 		} else {
 			if tx["transfers"].kind != 'a' {
 				return fmt.Errorf("tx %d: transfers is not an array", i)
@@ -249,10 +273,14 @@ func canonicalBatch(content []byte) error {
 				if err != nil {
 					return fmt.Errorf("tx %d transfer %d: %v", i, j, err)
 				}
-				if _, err := jAddress(tr["address"]); err != nil {
+				oaddr, err := jAddress(tr["address"])
+				if err != nil {
 					return fmt.Errorf("tx %d transfer %d: %v", i, j, err)
 				}
 				a, err := jAmount(tr["amount"])
+				if err == nil {
+					line += fmt.Sprintf(" -> %s %s", oaddr, a)
+				}
 				if err != nil {
 					return fmt.Errorf("tx %d transfer %d: %v", i, j, err)
 				}
@@ -261,11 +289,28 @@ func canonicalBatch(content []byte) error {
 				}
 			}
 		}
+		*said = append(*said, line)
 	}
 	if len(inputs) != 1 {
 		return fmt.Errorf("more than one input address")
 	}
 	return nil
+}
+
+// c20Decoded renders the parser's result the same way.
+func c20Decoded(tb *fat2.TransactionBatch) []string {
+	var out []string
+	for _, x := range tb.Transactions {
+		line := fmt.Sprintf("%s %d %s", x.Input.Address.String(), x.Input.Amount, x.Input.Type.String())
+		if x.Conversion != fat2.PTickerInvalid {
+			line += " => " + x.Conversion.String()
+		}
+		for _, o := range x.Transfers {
+			line += fmt.Sprintf(" -> %s %d", o.Address.String(), o.Amount)
+		}
+		out = append(out, line)
+	}
+	return out
 }
 
 // ---------------------------------------------------------------- generators
@@ -367,6 +412,14 @@ func c20Canonical() []string {
 		`{"version":1,"transactions":[{"input":{"address":"` + A.String() + `","amount":7,"type":"pUSD"},"conversion":"pEUR","metadata":{"m":[1,"x"]}}],"metadata":"memo"}`,
 		`{"version":1,"transactions":[{"input":{"address":"` + A.String() + `","amount":9223372036854775807,"type":"pFCT"},"transfers":[{"address":"` + B.String() + `","amount":9223372036854775807}]}]}`,
 		`{"version":1,"transactions":[{"input":{"address":"` + A.String() + `","amount":0,"type":"pUSD"},"transfers":[{"address":"` + B.String() + `","amount":0}]}]}`,
+		// several transactions of different shapes in every order: each decoded on its own
+		string(kit.BatchJSON(kit.Conversion(A, "pXBT", 1, "pUSD"), kit.Tx{From: A, Asset: "PEG", Amount: 10, To: []kit.Out{{B, 4}, {A, 6}}})),
+		string(kit.BatchJSON(kit.Transfer(A, "pUSD", 7, B), kit.Transfer(A, "pEUR", 8, A), kit.Transfer(A, "pUSD", 9, B))),
+		string(kit.BatchJSON(kit.Tx{From: A, Asset: "PEG", Amount: 10, To: []kit.Out{{B, 4}, {A, 6}}}, kit.Transfer(A, "pEUR", 8, A), kit.Conversion(A, "pXBT", 1, "pUSD"), kit.Conversion(A, "pXBT", 2, "pEUR"))),
+		string(kit.BatchJSON(kit.Transfer(A, "pUSD", 7, B), kit.Tx{From: A, Asset: "pUSD", Amount: 0})),
+		// equal amounts to different recipients: a decoder that shares storage between transactions still passes the sum rules
+		string(kit.BatchJSON(kit.Transfer(A, "pUSD", 7, B), kit.Transfer(A, "pUSD", 7, A))),
+		string(kit.BatchJSON(kit.Tx{From: A, Asset: "PEG", Amount: 10, To: []kit.Out{{B, 4}, {A, 6}}}, kit.Tx{From: A, Asset: "PEG", Amount: 10, To: []kit.Out{{A, 4}, {B, 6}}}, kit.Tx{From: A, Asset: "pEUR", Amount: 10, To: []kit.Out{{B, 10}}})),
 	}
 }
 
@@ -451,7 +504,13 @@ func runC20(c *core.Ctx, r *core.Result) {
 		if len(r.Samples) < 3 {
 			r.Sample(map[string]string{"accepted_content": s})
 		}
-		if cerr := canonicalBatch([]byte(s)); cerr != nil {
+		said, cerr := canonicalBatchTxs([]byte(s))
+		if cerr == nil && strings.Join(said, "\n") != strings.Join(c20Decoded(tb), "\n") {
+			r.Violate(core.Violation{Key: key, Signature: "C20:decoded-batch-is-not-what-the-content-says", Desc: "the parser's transactions differ from what the canonical content says",
+				Detail: append(append([]string{s, "content says:"}, said...), append([]string{"parser decoded:"}, c20Decoded(tb)...)...)})
+			continue
+		}
+		if cerr != nil {
 			r.Violate(core.Violation{Key: key, Signature: "C20:batch-accepted-but-not-canonical:" + errClass(strings.SplitN(cerr.Error(), ":", 2)[0]+c20Tail(cerr.Error())),
 				Desc: "the parser accepts a batch that the canonical language excludes: " + cerr.Error(), Detail: []string{s}})
 			continue
